@@ -1078,6 +1078,9 @@ func (sb *seqbag) MaxNameLength() (max int) {
 //
 // The map in argument is updated with new oldname=>newname key values
 func (sb *seqbag) TrimNames(namemap map[string]string, size int) error {
+	// A new short name may be the current name of another sequence:
+	// the name index is rebuilt once all the sequences are renamed
+	defer sb.reindex()
 	shortmap := make(map[string]bool)
 	if math.Pow10(size-2) < float64(sb.NbSequences()) {
 		return fmt.Errorf("new name size (%d) does not allow to identify that amount of sequences (%d)",
@@ -1113,9 +1116,7 @@ func (sb *seqbag) TrimNames(namemap map[string]string, size int) error {
 			shortmap[newname] = true
 			namemap[seq.Name()] = newname
 		}
-		delete(sb.seqmap, seq.name)
 		seq.name = newname
-		sb.seqmap[seq.name] = seq
 	}
 
 	return nil
